@@ -32,7 +32,7 @@ def places_for(tier):
     return f
 
 
-FORMS = cons.PY_FORMS + cons.ND + cons.XOBJ + cons.CAP
+FORMS = cons.PY_FORMS + cons.ND + cons.XOBJ + cons.CAP + cons.LEN
 
 
 def describe(tier):
